@@ -378,4 +378,60 @@ void h_repair_step(void)
 	VERIF_CANARY();
 }
 
+
+/*
+ * repair_step with MORE failed blocks than parity levels - in particular more than LEV_MAX, the size of its local
+ * index vectors: no reconstruction is attempted, "no strategy" (-1) is returned, and nothing outside an object is touched
+ * (bounds / pointer obligations of the real function).
+ */
+#ifdef VERIF_MANY
+#define NMANY 8
+void h_repair_step_many(void)
+{
+	static struct failed_struct FM[NMANY];
+	static unsigned char BM_0[BLKSZ], BM_1[BLKSZ], BM_2[BLKSZ], BM_3[BLKSZ], BM_4[BLKSZ], BM_5[BLKSZ], BM_6[BLKSZ], BM_7[BLKSZ];
+	unsigned char *const BM[NMANY] = { BM_0, BM_1, BM_2, BM_3, BM_4, BM_5, BM_6, BM_7 };
+	static struct snapraid_file FL;
+	unsigned map[NMANY], j, l;
+	void *buffer[NMANY + LEV_MAX];
+	void *recov[LEV_MAX];
+	static unsigned char RECOV_0[BS], RECOV_1[BS], RECOV_2[BS], RECOV_3[BS], RECOV_4[BS], RECOV_5[BS];
+	unsigned char *const RECOV[LEV_MAX] = { RECOV_0, RECOV_1, RECOV_2, RECOV_3, RECOV_4, RECOV_5 };
+	static unsigned char DM[BS];
+	int ret;
+	VERIF_INPUTS();
+	VERIF_ASSUME(IN.level >= 1 && IN.level <= LEV_MAX);
+	VERIF_ASSUME(IN.failed_count > IN.level && IN.failed_count <= NMANY);
+#ifdef MANY_FC
+	VERIF_ASSUME(IN.failed_count == MANY_FC && IN.level == MANY_LEVEL); /* concrete per obligation: keeps the query small */
+#endif
+	ST.level = IN.level;
+	ST.block_size = BS;
+	for (j = 0; j < NMANY; ++j) {
+		struct snapraid_block *b = (struct snapraid_block *)BM[j];
+		unsigned st = IN.bstate[j % NFAIL];
+		VERIF_ASSUME(st == BLOCK_STATE_BLK || st == BLOCK_STATE_CHG || st == BLOCK_STATE_REP);
+		block_state_set(b, st);
+		FM[j].is_bad = 1;
+		FM[j].is_outofdate = IN.outofdate[j % NFAIL] != 0;
+		FM[j].index = j;
+		FM[j].block = b;
+		FM[j].file = &FL;
+		FM[j].file_pos = 0;
+		map[j] = j;
+	}
+	for (j = 0; j < NMANY + LEV_MAX; ++j)
+		buffer[j] = DM;
+	for (l = 0; l < LEV_MAX; ++l)
+		recov[l] = (l < IN.level && IN.readable[l]) ? (void *)RECOV[l] : (void *)0;
+#ifdef VERIF_NATIVE
+	exit(77);
+#endif
+	g_valid_calls = g_data_calls = g_gen_calls = 0;
+	ret = repair_step(&ST, IN.rehash, 0, NMANY, FM, map, IN.failed_count, buffer, recov, IN.zero);
+	VERIF_ASSERT(ret == -1 && g_data_calls == 0 && g_valid_calls == 0, "with more failed blocks than parity levels nothing is reconstructed: no strategy");
+	VERIF_CANARY();
+}
+#endif
+
 #include "verif_tail.h"
